@@ -83,6 +83,8 @@ pub enum Base {
     Bytes(Vec<u8>),
     /// a whole corpus subtree copied to the same relative path (e.g. "map/"); `path` is ignored
     Tree(String),
+    /// a symbolic link with this target (pre-existing file-system state)
+    Symlink(String),
 }
 
 mod hexbytes {
@@ -120,6 +122,9 @@ impl Input {
     }
     pub fn bytes(path: &str, b: Vec<u8>) -> Input {
         Input { path: path.to_string(), base: Base::Bytes(b), corrupt: vec![] }
+    }
+    pub fn symlink(path: &str, target: &str) -> Input {
+        Input { path: path.to_string(), base: Base::Symlink(target.to_string()), corrupt: vec![] }
     }
     pub fn tree(prefix: &str) -> Input {
         Input { path: prefix.to_string(), base: Base::Tree(prefix.to_string()), corrupt: vec![] }
@@ -162,6 +167,9 @@ pub struct Case {
     pub meta: serde_json::Value,
 }
 
+/// Content marker by which `materialise` tells the sandbox to create a symlink instead of a file.
+pub const SYMLINK_MARKER: &[u8] = b"\x00TRUSIM-SYMLINK\x00";
+
 /// Materialise the initial sandbox content of a case: (relative path, bytes) sorted by path.
 pub fn materialise(inputs: &[Input], corpus: &Corpus) -> Vec<(String, Arc<Vec<u8>>)> {
     let mut out: std::collections::BTreeMap<String, Arc<Vec<u8>>> = Default::default();
@@ -177,6 +185,11 @@ pub fn materialise(inputs: &[Input], corpus: &Corpus) -> Vec<(String, Arc<Vec<u8
                     Base::Corpus(p) => corpus.tree.get(p).cloned().unwrap_or_else(|| panic!("corpus file missing: {}", p)),
                     Base::Text(t) => Arc::new(t.clone().into_bytes()),
                     Base::Bytes(b) => Arc::new(b.clone()),
+                    Base::Symlink(target) => {
+                        let mut v = SYMLINK_MARKER.to_vec();
+                        v.extend_from_slice(target.as_bytes());
+                        Arc::new(v)
+                    }
                     Base::Tree(_) => unreachable!(),
                 };
                 if !inp.corrupt.is_empty() {
